@@ -6,7 +6,7 @@ LEVEL_TEXT = ('Bounded symbolic model checking (CBMC) of the real reverse move g
               'true undo information rebuilds P exactly. The enumeration of (captured piece, castling rights, en-passant file) alternatives in genMoves and the converse direction (every listed un-move is valid) '
               'are outside the claim (std::vector machinery and 7 x 16 x 9 nested Position copies).')
 ASSUMPTIONS = ['positions with two kings + up to NMEN-2 further men (quick: 3 men, thorough: 4 men), accepted by the FEN reader, en-passant square already fixed up (as the tool keeps it)',
-               'TextIO::fixupEPSquare is replaced by its specification (ep square kept iff a legal en-passant capture exists, decided by the oracle); the real one is pseudoLegalMoves+removeIllegal (C01)',
+               'in O1 TextIO::fixupEPSquare is replaced by its specification (ep square kept iff a legal en-passant capture exists, decided by the oracle); O5 checks the real function against that specification on the contract of the legal move list (C01 O2/O3)',
                'RevMoveGen::addMovesByMask replaced by a recording model (the real helper is a loop of MoveList::addMove over the mask bits, same shape as C01 O2-expand)',
                'slider/bit kernels replaced by the models proved in C01-O1 (lemmas re-run here)']
 SUBST = {'_ZN8BitBoard11rookAttacksE6Squarem': 'model_rookAttacks', '_ZN8BitBoard13bishopAttacksE6Squarem': 'model_bishopAttacks', '_ZN7BitUtil8firstBitEm': 'model_firstBit', '_ZN7BitUtil7lastBitEm': 'model_lastBit',
@@ -35,13 +35,16 @@ def build(tier):
         for col in (0, 1):
             for cls in ((0,) if K == 3 else (2, 3, 4, 5, 6)):
                 cases.append((2 + K * (col + 2 * cls), 'extra man (%s, %s) moves' % ('white' if col else 'black', KINDS[cls])))
+        # quick-tier budget: knownInvalid on ordinary king steps / an extra man of any kind costs 750-900 s per case; (splitting by the kind of the extra man does not
+        # make it cheaper); the quick tier runs the castling cases, the thorough tier everything
+        slowNI = set(p for p, _ in cases if K == 3 and p not in (K * 2, K * 2 + 1))
         for par, who in cases:
             obs.append(Ob('O2-contains-K%d@%d' % (K, par), u, 'h_contains', '%d-man positions, %s: the raw un-move list of the successor contains the played move, once' % (K, who), unwind=65, param=par, core=(K == 3),
                           unwind_fn={r'_ZN10RevMoveGen18genMovesNoUndoInfoERK8PositionR8MoveList': K + 1}, timeout=1800 if K == 3 else 5400, mem_gb=12, backend='kissat',
                           functions=['RevMoveGen::genMovesNoUndoInfo (revmovegen.cpp:209-300)', 'RevMoveGen::sqAttacked', 'Position::makeMove'], stubs=['RevMoveGen::addMovesByMask -> recording model', 'kernel models (lemmas L-*)'],
                           bounds='two kings + %d further men; every legal move of the chosen mover (oracle); successor without en-passant square (with one, genMoves takes the double-push shortcut)' % (K - 2)))
             obs.append(Ob('O1-notinvalid-K%d@%d' % (K, par), u, 'h_notinvalid', '%d-man positions, %s: knownInvalid(successor, move, true undo info) is false and the predecessor is rebuilt exactly' % (K, who), unwind=65, param=par, core=(K == 3),
-                          timeout=1800 if K == 3 else 5400, mem_gb=12, backend='kissat',
+                          tiers=('thorough',) if par in slowNI else ('quick', 'thorough'), timeout=1800 if K == 3 else 5400, mem_gb=12, backend='kissat',
                           functions=['RevMoveGen::knownInvalid (revmovegen.cpp:339-363)', 'pieceCountsValid (302-337)', 'Position::Position(const Position&)', 'Position::unMakeMove/makeMove', 'MoveGen::canTakeKing'],
                           stubs=['TextIO::fixupEPSquare -> specification stub bound to the oracle', 'kernel models (lemmas L-*)'],
                           bounds='two kings + %d further men; every legal move of the chosen mover incl. castling, en passant, promotions, captures' % (K - 2)))
@@ -50,4 +53,37 @@ def build(tier):
                           unwind=65, param=w, core=(K == 3), unwind_fn={r'_ZN10RevMoveGen18genMovesNoUndoInfoERK8PositionR8MoveList': K + 1}, timeout=1800 if K == 3 else 5400, mem_gb=12, backend='kissat',
                           functions=['RevMoveGen::genMovesNoUndoInfo'], stubs=['RevMoveGen::addMovesByMask -> recording model', 'kernel models (lemmas L-*)'],
                           bounds='two kings + %d further men of any kind; position without en-passant square; un-move (from, record) universally quantified' % (K - 2)))
+    # ---- O4: undo-information choices in genMoves: the real lambdas (internal symbols discovered in the IR, called through asm labels)
+    GM = r'_ZZN10RevMoveGen8genMovesERK8PositionRSt6vectorI6UnMoveSaIS4_EEbENK3\$_\d+cl'
+    DISC = {'LAM_VALIDCAP': r'define internal [^@\n]*\bi1 @"(' + GM + r'ES2_RK4Moveii)"', 'LAM_BASE': r'define internal [^@\n]*\bi32 @"(' + GM + r'ES2_RK4Movei)"',
+            'LAM_ADD': r'define internal [^@\n]*\bi32 @"(' + GM + r'ES2_RK4Moveii)"', 'LAM_EPMASK': r'define internal [^@\n]*\bi32 @"(' + GM + r'ES2_RK4Moveiib)"'}
+    for K in ([3] if tier == 'quick' else [3, 4]):
+        defs = {'NMEN': K, 'LAMBDAS': None}
+        if K > 3: defs['ALLPRESENT'] = None
+        ue = Unit('revlam%d' % K, 'C15/rev.cpp', ['h_undoinfo'], defines=defs, aliases=SUBST, lemmas=['L-rook', 'L-bishop', 'L-bits', 'L-bitcount'], discover=DISC,
+                  allow_extern=[r'_ZN11NNEvaluator.*', r'_ZNSt.*', r'_ZNKSt.*', r'_ZSt.*', r'_ZN7MoveGen16pseudoLegalMoves.*', r'_ZN7MoveGen13removeIllegal.*', r'_ZN6TextIO.*', r'_Z.*ChessParseError.*', r'__cxa_\w+', r'_ZT[VI].*', r'_Z7num2Str.*', r'_Z9splitLines.*'])
+        units.append(ue)
+        cases = []
+        for j in (0, 1):
+            for cls, nm in ((0, 'ordinary king steps'), (1, 'castling moves')):
+                cases.append((j + K * 2 * cls, '%s king, %s' % ('white' if j == 0 else 'black', nm)))
+        for col in (0, 1):
+            for cls in ((0,) if K == 3 else (2, 3, 4, 5, 6)):
+                cases.append((2 + K * (col + 2 * cls), 'extra man (%s, %s) moves' % ('white' if col else 'black', KINDS[cls])))
+        for par, who in cases:
+            obs.append(Ob('O4-undoinfo-K%d@%d' % (K, par), ue, 'h_undoinfo', '%d-man positions, %s: the undo-information choices genMoves tries for the played move include the captured piece, castling rights and en-passant square of the true predecessor, and offer only rights/files that fit it' % (K, who),
+                          unwind=65, param=par, core=(K == 3), timeout=1800 if K == 3 else 5400, mem_gb=12, backend='kissat',
+                          unwind_fn={r'.*genMoves.*ENK3__\d+clES2_RK4Moveiib\.0': 65, r'.*genMoves.*ENK3__\d+clES2_RK4Moveiib': 9, r'.*genMoves.*ENK3__\d+clES2_RK4Moveii': 7},   # board copy 64; <= 8 files; 6 home squares
+                          functions=['RevMoveGen::genMoves lambdas (revmovegen.cpp:40-168): validCapturePiece, getBaseCastleMask, getCastleAddMask, mustBeEpCapture, getEpMask'],
+                          stubs=['kernel models (lemmas L-*)', 'the 7 x 2^k x 9 loop nest of genMoves that combines the choices and filters them through knownInvalid (O1) is not executed'],
+                          bounds='two kings + %d further men; every legal move of the chosen mover incl. castling, en passant, promotions, captures; includeAllEpSquares both values' % (K - 2)))
+    # ---- O5: the real TextIO::fixupEPSquare scan that O1 replaces by its specification (same harness and obligations as C01-O4a)
+    import copy
+    from props import C01
+    units1, obs1 = C01.build(tier)
+    for o in obs1:
+        if o.oid.startswith('O4a-fixupEP'):
+            o2 = copy.copy(o); o2.oid = 'O5' + o.oid[3:]
+            if o.unit not in units: units.append(o.unit)
+            obs.append(o2)
     return units, obs
